@@ -31,7 +31,10 @@ def plan(tier, seed):
     """(space, window, start in {main, layout})"""
     if tier == "quick":
         return [("k4", None, "main"), ("k3", None, "layout"),
-                ("k5", (seed, 60), "main")]
+                ("k5", (seed, 60), "main"),
+                # three nonterminals: FOLLOW/lookahead fixpoints that need
+                # more than two passes only exist from here on
+                ("n3", (seed, 40), "main")]
     return [("k4", None, "main"), ("k4", None, "layout"),
             ("k5", None, "main"), ("r3", None, "main"), ("n3", None, "main"),
             ("r3", None, "layout")]
